@@ -98,4 +98,43 @@ func TamperInlineJar(path string) ([]byte, error) {
 	return buf.Bytes(), nil
 }
 
+// InjectJarMember adds a new member to a signed jar together with a well-formed MANIFEST.MF section for it (correct
+// digest), leaving the .SF and the signature block untouched. The .SF's digest of the whole manifest no longer matches.
+func InjectJarMember(path string) ([]byte, error) {
+	zr, err := zip.OpenReader(path)
+	if err != nil {
+		return nil, err
+	}
+	defer zr.Close()
+	var buf bytes.Buffer
+	zw := zip.NewWriter(&buf)
+	injected := []byte("injected after signing\n")
+	found := false
+	for _, f := range zr.File {
+		rc, _ := f.Open()
+		b, _ := io.ReadAll(rc)
+		rc.Close()
+		if f.Name == "META-INF/MANIFEST.MF" {
+			nl := "\r\n"
+			if !bytes.Contains(b, []byte("\r\n")) {
+				nl = "\n"
+			}
+			if !bytes.Contains(b, []byte("SHA-256-Digest")) {
+				return nil, fmt.Errorf("manifest does not use SHA-256 digests")
+			}
+			b = append(b, []byte("Name: com/example/Injected.class"+nl+"SHA-256-Digest: "+b64sum(injected)+nl+nl)...)
+			found = true
+		}
+		w, _ := zw.CreateHeader(&zip.FileHeader{Name: f.Name, Method: zip.Deflate})
+		w.Write(b)
+	}
+	if !found {
+		return nil, fmt.Errorf("no manifest")
+	}
+	w, _ := zw.CreateHeader(&zip.FileHeader{Name: "com/example/Injected.class", Method: zip.Deflate})
+	w.Write(injected)
+	zw.Close()
+	return buf.Bytes(), nil
+}
+
 var _ = os.ReadFile
